@@ -869,6 +869,159 @@ def _rename_text(text, ren):
     return ''.join(out)
 
 
+def _atoms(text):
+    """annotated text -> atoms (kind, text, start, end): real tokens, and each inserted / old region as ONE atom."""
+    out = []
+    pos = 0
+    for kind, t in split_chunks(text):
+        if kind == 'real':
+            for tk in lex(t):
+                out.append(('real', tk[1], pos + tk[2], pos + tk[3]))
+            pos += len(t)
+        else:
+            out.append((kind, t, pos, pos + len(t) + 2))
+            pos += len(t) + 2
+    return out
+
+
+def _close_of(at, k):
+    """index of the real token that closes the bracket opened by real atom k."""
+    pairs = {'(': ')', '[': ']', '{': '}'}
+    depth = 0
+    for j in range(k, len(at)):
+        if at[j][0] != 'real':
+            continue
+        if at[j][1] in pairs:
+            depth += 1
+        elif at[j][1] in (')', ']', '}'):
+            depth -= 1
+            if depth == 0:
+                return j
+    return None
+
+
+def _match_arms(at, k):
+    """`match` keyword at atom k -> (scrutinee key, open index, close index, [(pattern key, first atom, last atom)]) or None.
+    Only matches in which every arm ends with a `,` or has a block body (so that arms can change places without new commas)."""
+    j = k + 1
+    depth = 0
+    while j < len(at):
+        if at[j][0] == 'real':
+            t = at[j][1]
+            if t in '([':
+                c = _close_of(at, j)
+                if c is None:
+                    return None
+                j = c + 1
+                continue
+            if t == '{' and depth == 0:
+                break
+        j += 1
+    if j >= len(at):
+        return None
+    op = j
+    cl = _close_of(at, op)
+    if cl is None:
+        return None
+    scrut = tuple(a[1] for a in at[k + 1:op] if a[0] == 'real')
+    arms = []
+    i = op + 1
+    while i < cl:
+        first = i
+        # pattern: up to `=` `>` at depth 0
+        pat = []
+        while i < cl:
+            a = at[i]
+            if a[0] == 'real':
+                if a[1] in '([{':
+                    c = _close_of(at, i)
+                    pat.extend(x[1] for x in at[i:c + 1] if x[0] == 'real')
+                    i = c + 1
+                    continue
+                if a[1] == '=' and i + 1 < cl and at[i + 1][0] == 'real' and at[i + 1][1] == '>' and at[i + 1][2] == a[3]:
+                    break
+                pat.append(a[1])
+            i += 1
+        if i >= cl:
+            return None
+        i += 2  # past `=>`
+        while i < cl and at[i][0] != 'real':
+            i += 1
+        if i >= cl:
+            return None
+        if at[i][1] == '{':
+            c = _close_of(at, i)
+            i = c + 1
+            nxt = i
+            while nxt < cl and at[nxt][0] != 'real':
+                nxt += 1
+            if nxt < cl and at[nxt][1] == ',':
+                i = nxt + 1
+        else:
+            while i < cl:
+                a = at[i]
+                if a[0] == 'real' and a[1] in '([{':
+                    i = _close_of(at, i) + 1
+                    continue
+                if a[0] == 'real' and a[1] == ',':
+                    break
+                i += 1
+            if i >= cl:
+                return None  # last arm without a trailing comma: leave this match alone
+            i += 1
+        arms.append((tuple(pat), first, i - 1))
+    return scrut, op, cl, arms
+
+
+def align_match_arms(text, real_text, log=None):
+    """Behaviour-preserving reordering of the arms of a `match` (disjoint patterns moved around) defeats a token diff: every arm
+    looks deleted here and inserted there, and the annotations inside the arms lose their anchors.  If the CURRENT text has a
+    `match` on the same scrutinee whose arm patterns are a permutation of the arm patterns of a `match` in the annotated copy
+    (all patterns distinct), the arms of the annotated copy - with their annotations - are put into the current order before
+    the merge.  Only the annotated copy is rearranged, never the repository text; logged as a normalisation."""
+    for _ in range(6):
+        at = _atoms(text)
+        cur = [('real', t[1], t[2], t[3]) for t in lex(real_text)]
+        cur_matches = {}
+        for k, a in enumerate(cur):
+            if a[1] == 'match' and (k == 0 or cur[k - 1][1] != '.'):
+                m = _match_arms(cur, k)
+                if m:
+                    cur_matches.setdefault(m[0], []).append([x[0] for x in m[3]])
+        done = True
+        for k, a in enumerate(at):
+            if a[0] != 'real' or a[1] != 'match' or (k > 0 and at[k - 1][0] == 'real' and at[k - 1][1] == '.'):
+                continue
+            m = _match_arms(at, k)
+            if not m:
+                continue
+            scrut, op, cl, arms = m
+            keys = [x[0] for x in arms]
+            if len(set(keys)) != len(keys) or len(keys) < 2:
+                continue
+            cands = [c for c in cur_matches.get(scrut, []) if sorted(c) == sorted(keys)]
+            if len(cands) != 1 or cands[0] == keys:
+                continue
+            order = cands[0]
+            # text spans of the arms: from the arm's first atom to the start of the next arm (or to the closing brace)
+            starts = [at[x[1]][2] for x in arms]
+            ends = starts[1:] + [at[cl][2]]
+            spans = {x[0]: text[s:e] for x, s, e in zip(arms, starts, ends)}
+            # the last arm's tail (whitespace before `}`) stays last
+            last_key = keys[-1]
+            tail_ws = spans[last_key][len(spans[last_key].rstrip()):]
+            spans[last_key] = spans[last_key].rstrip() + (spans[keys[0]][len(spans[keys[0]].rstrip()):] or '\n')
+            new_body = ''.join(spans[kx] for kx in order).rstrip() + tail_ws
+            text = text[:starts[0]] + new_body + text[ends[-1]:]
+            if log is not None:
+                log.append({'kind': 'align-match-arms', 'why': 'the arms of `match %s` are in a different order in the current text: the annotated copy was rearranged to that order (arms with their annotations moved as units)' % ' '.join(scrut)[:60]})
+            done = False
+            break
+        if done:
+            break
+    return text
+
+
 def merge(chunks, real_text):
     """Three-way token merge.  Returns (text, conflicts)."""
     # consistent renames of locals in the current text are applied to the annotated copy first (real tokens AND annotations), so that
@@ -1200,6 +1353,12 @@ def generate(unit_path, out_path, spec_root=None):
             emit(body.split('\n'), name)
         else:
             info['changed'] = True
+            try:
+                text2 = align_match_arms(text, real, nlog)
+                if text2 != text and erased_tokens(split_chunks(text2)) is not None:
+                    chunks = split_chunks(text2)
+            except Exception:
+                pass
             body, conflicts = merge(chunks, real)
             body = fix_hoisted_closure_specs(body, nlog)
             try:
